@@ -23,7 +23,7 @@ def jobs(tier, seed):
     def add(ex, strat, dirbc, norm, maxit, tolmode, cyc=0, geo=1, prof=3, diff=False):
         J.append(dict(entry='h_stop_true', args=[ex, strat, dirbc, norm, maxit, tolmode, cyc, geo, prof],
                       label=f'stop ex={ex} strategy={strat} dirbc={dirbc} norm={norm} maxit={maxit} tol={tolmode}', cls='stop', reach=['setup-done', 'solve-returned', 'stopped-early'],
-                      eager=True, feas_timeout=8, libm_small=True, diff=diff, witness=False, cap_quick=120, cap_thorough=900, point_refutation=False))
+                      eager=True, feas_timeout=8, libm_small=True, diff=diff, witness=False, cap_quick=120, cap_thorough=300, point_refutation=False))
     if q:
         add(0, 1, 0, 0, 2, 0, diff=True)
         add(1, 1, 1, 0, 2, 0)
